@@ -330,8 +330,11 @@ static UBASE_UNUSED bool STRUCTURE##_flush_input(struct upipe *upipe)       \
 {                                                                           \
     if (STRUCTURE##_check_input(upipe))                                     \
         return false;                                                       \
+    struct STRUCTURE *s = STRUCTURE##_from_upipe(upipe);                    \
+    unsigned int max_urefs = s->MAX_UREFS;                                  \
     STRUCTURE##_clean_input(upipe);                                         \
     STRUCTURE##_init_input(upipe);                                          \
+    s->MAX_UREFS = max_urefs;                                               \
     return true;                                                            \
 }
 
